@@ -194,6 +194,13 @@ def single_faults(toks):
         v = t[1]
         flipped = v[:-1] + ("B" if v[-1] != "B" else "C")
         yield ("rename-end", f"</{v}> -> </{flipped}> (token {i})", render(toks[:i] + [["close", flipped]] + toks[i + 1:]))
+        # near misses: names that are string relatives of the right one (a proper suffix or prefix of it, or the name
+        # with a letter more at either end - OFX is full of such pairs: STMTRS/CCSTMTRS, ACCTFROM/CCACCTFROM,
+        # TRANLIST/BANKTRANLIST, STMTTRN/STMTTRNRS), which a comparison that is not anchored at both ends lets through
+        near = [v[1:], v[:-1], "C" + v, v + "S"] + ([v[2:]] if len(v) > 3 else [])
+        for nm in near:
+            if nm and nm != v and nm != flipped:
+                yield ("rename-end", f"</{v}> -> </{nm}> (near miss, token {i})", render(toks[:i] + [["close", nm]] + toks[i + 1:]))
         other = next((n for n in names if n != v), None)
         if other is not None:
             yield ("rename-end", f"</{v}> -> </{other}> (token {i})", render(toks[:i] + [["close", other]] + toks[i + 1:]))
